@@ -385,6 +385,16 @@ def dec_charclass(p, res):
         'markup.format.template.is_token_start': lambda c: c != '' and 'A' <= c <= 'Z',
         'markup.format.template.is_token': lambda c: c != '' and ('A' <= c <= 'Z' or c in ('_', '-') or '0' <= c <= '9'),
         'math_expression.parser.is_operator': lambda c: c in ('+', '-', '*', '/', '\\'),
+        'math_expression.parser.is_sign': lambda c: c in ('+', '-'),
+        'math_expression.parser.is_positive_sign': lambda c: c == '+',
+        'math_expression.parser.is_negative_sign': lambda c: c == '-',
+        'html_matcher.utils.is_unquoted': lambda c: c != '' and c not in ('"', "'", ' ', '\t', '\xa0', '\n', '\r', '>', '/'),
+        'extract_abbreviation.is_html.is_unquoted_value': lambda c: c != '' and c not in ('=', ' ', '\t', '"', "'"),
+        'extract_abbreviation.is_html.is_open_bracket': lambda c: c in ('{', '(', '['),
+        'extract_abbreviation.is_html.is_close_bracket': lambda c: c in ('}', ')', ']'),
+        # `ch in <string constant>`: the empty look-ahead sentinel is "in" every string (callers test for it first)
+        'extract_abbreviation.is_abbreviation': lambda c: c == '' or c in letters or c.isdecimal() or c in '#.*:$-_!@%^+>/',
+        'css_matcher.parse.is_operator': lambda c: c == '' or c in '+/*,',
     }
     for fq, want in spec.items():
         f = p.func(fq)
@@ -398,6 +408,17 @@ def dec_charclass(p, res):
                       'character class changed for %d character(s), e.g. %r' % (len(bad), bad[:6])))
         else:
             res.ok('%s decided over 257 inputs' % f.short)
+    # two-argument brace predicates of the abbreviation extractor, per syntax type
+    for fq, table in (('extract_abbreviation.is_open_brace', {'markup': ('(', '[', '{'), 'stylesheet': ('(',)}),
+                      ('extract_abbreviation.is_close_brace', {'markup': (')', ']', '}'), 'stylesheet': (')',)})):
+        f = p.func(fq)
+        for syntax, yes in table.items():
+            bad = [c for c in chars if bool(ev.call(f, [c, syntax])) != (c in yes)]
+            if bad:
+                res.bad(F('DEC-CHARCLASS', f, f.node, '%s(%r, %r) -> %r' % (f.name, bad[0], syntax, bad[0] not in yes),
+                          'bracket class changed for %d character(s) in %s abbreviations, e.g. %r' % (len(bad), syntax, bad[:6])))
+            else:
+                res.ok('%s(%s) decided over 257 inputs' % (f.short, syntax))
     res.require_floor(18)
 
 
